@@ -93,6 +93,10 @@ def wiring(src):
             [(f, k) for f, _, k in re.findall(r'(\w+)\s*:\s*\*?\s*matches\s*\.\s*(get_one|get_many)[^"]*"([\w-]+)"', nb)]:
         w.append((f'ServerArgs.{field}', f'arg:{expr}'))
     mb = fn_body(src, 'main')
+    # the translator reads the wiring off ONE function body; a `main` that delegates the construction to helpers is beyond
+    # it (it would need data flow through parameters): say so, and leave the wiring to the runs of the real executable
+    if not re.search(r'WebServer::new\s*\(', mb) or not re.search(r'\.bind\s*\(', mb):
+        raise ValueError('main does not construct the WebServer and bind the addresses itself')
     m = re.search(r'ServerConfig\s*\{([^}]*)\}', mb)
     if m:
         for f, e in re.findall(r'(\w+)\s*:\s*([\w.:()]+)', m.group(1)):
